@@ -58,7 +58,9 @@ public:
             auto h = std::move(_queue.front());
             _queue.pop();
             lk.unlock();
+            COCLS_VERIF_POINT(tp_worker_dequeued);
             h();
+            COCLS_VERIF_POINT(tp_worker_after_job);
             //if _current is nullptr, thread_pool has been destroyed
             if (_current == nullptr) return;
             lk.lock();
@@ -79,6 +81,7 @@ public:
             std::swap(tmp, _threads);
             std::swap(q, _queue);
         }
+        COCLS_VERIF_POINT(tp_stop_flagged);
         auto me = std::this_thread::get_id();
         for (std::thread &t: tmp) {
             if (t.get_id() == me) {
@@ -87,6 +90,7 @@ public:
                 _current = nullptr;
             }
             else {
+                COCLS_VERIF_POINT(tp_stop_pre_join);
                 t.join();
             }
         }
@@ -134,6 +138,7 @@ public:
 
                coro_queue::resume(h);
            });
+           COCLS_VERIF_POINT(tp_await_enqueued);
         }
 
         void await_resume() {
@@ -304,6 +309,7 @@ public:
             current_awaiter():co_awaiter(*_current) {}
             static bool await_ready() {
                 thread_pool *c = _current;
+                COCLS_VERIF_POINT(tp_current_ready);
                 return c == nullptr || c->_exit;
             }
         };
@@ -351,9 +357,11 @@ protected:
 
 
     void enqueue(q_item &&fn) {
+        COCLS_VERIF_POINT(tp_enqueue_entry);
         std::lock_guard _(_mx);
         if (!_exit) {
             _queue.push(std::move(fn));
+            COCLS_VERIF_EVENT(ev_tp_enqueue_ok, this, 0);
             _cond.notify_one();
         }
     }
